@@ -427,6 +427,16 @@ def capture_programs():
         ]
         for kind, template in progs:
             out.append(('capture/%s/%s' % (kind, n), template % d))
+    # `import a.b` binds the root package `a`: when `a` is declared nonlocal / global where the import runs, the variable it
+    # binds belongs to another scope, and `import a.b as X` would bind the submodule instead
+    for root, sub, attr in (('os', 'path', 'sep'), ('importlib', 'util', 'import_module'), ('xml', 'dom', '__name__')):
+        d = {'r': root, 's': sub, 'a': attr}
+        out += [
+            ('capture/nonlocal-dotted-import/' + root, 'def make_loader():\n    %(r)s = None\n    def ensure_loaded():\n        nonlocal %(r)s\n        if %(r)s is None:\n            import %(r)s.%(s)s\n    def describe_it(first_name):\n        ensure_loaded()\n        return %(r)s.%(s)s.__name__, %(r)s.__name__, hasattr(%(r)s, "%(a)s"), first_name\n    return describe_it\nprint(make_loader()("a"))\n' % d),
+            ('capture/nonlocal-dotted-import-two-deep/' + root, 'def make_loader(%(r)s=None):\n    def middle_function():\n        def ensure_loaded():\n            nonlocal %(r)s\n            import %(r)s.%(s)s, %(r)s.%(s)s as other_alias\n            return other_alias.__name__\n        return ensure_loaded(), %(r)s.__name__, %(r)s.%(s)s.__name__\n    return middle_function(), %(r)s.__name__\nprint(make_loader())\n' % d),
+            ('capture/global-dotted-import/' + root, '%(r)s = None\ndef ensure_loaded():\n    global %(r)s\n    import %(r)s.%(s)s\n    return %(r)s.__name__\ndef describe_it():\n    return ensure_loaded(), %(r)s.%(s)s.__name__, %(r)s.__name__, %(r)s.__name__\nprint(describe_it())\n' % d),
+            ('capture/class-nonlocal-dotted-import/' + root, 'def make_loader():\n    %(r)s = None\n    class Loader:\n        nonlocal %(r)s\n        import %(r)s.%(s)s\n    return %(r)s.%(s)s.__name__, %(r)s.__name__, %(r)s.__name__, hasattr(Loader, "%(r)s")\nprint(make_loader())\n' % d),
+        ]
     return out
 
 
